@@ -321,9 +321,22 @@ static void closure_cell(H3Index h, vf_rng *r) {
     }
     vf_add("closure.deep", 1);
 }
+/* every cell centre of a whole coarse resolution through latLngToCell: the result must be a valid cell (thin regions where the
+ * face/rotation logic of the indexing pipeline goes wrong hold only a handful of cell centres per resolution) */
+static void closure_centre(uint64_t h, int64_t i, void *u) {
+    (void)i;
+    (void)u;
+    LatLng g;
+    H3Index o;
+    int res = VF_RES(h);
+    if (!cellToLatLng(h, &g) && !latLngToCell(&g, res, &o)) vf_out_cell("latLngToCell", o, res);
+    if (res < 15 && !latLngToCell(&g, res + 1, &o)) vf_out_cell("latLngToCell", o, res + 1);
+}
 static void stratum_closure(vf_rng *r) {
     H3Index seeds[400];
     int64_t idx = 0;
+    vf_case("closure-centres");
+    for (int res = 0; res <= VF_T(5, 6); res++) ref_enum_res(res, 1, closure_centre, NULL);
     for (int res = 0; res <= 15; res++) {
         H3Index p[12], r0[122];
         if (!getPentagons(res, p))
